@@ -11,6 +11,31 @@ from ..lean import cbits, fbits, ints, parse_floats, parse_complex, parse_ints, 
 ID = 'C18'
 DRIVERS = ('driver_masks',)
 THEOREMS = [
+    'PbBss.C18.ibm_onehot',
+    'PbBss.C18.ibm_onehot_tensor',
+    'PbBss.C18.pooled_power_def',
+    'PbBss.C18.wiener_range_sum',
+    'PbBss.C18.irm_range_sum',
+    'PbBss.C18.wiener_tensor_is_kernel',
+    'PbBss.C18.icm_reconstruct',
+    'PbBss.C18.psm_eq_re_icm',
+    'PbBss.C18.icm_psm_tensor_is_kernel',
+    'PbBss.C18.quantile_levels',
+    'PbBss.C18.quantile_high_iff',
+    'PbBss.C18.quantile_threshold',
+    'PbBss.C18.quantile_high_count',
+    'PbBss.C18.lorenz_levels',
+    'PbBss.C18.lorenz_pairs',
+    'PbBss.C18.lorenz_raises_iff',
+    'PbBss.C18.lorenz_selection_is_prefix',
+    'PbBss.C18.lorenz_tensor_rows',
+    'PbBss.C18.quantile_tensor_rows',
+    'PbBss.C18.mask_axis_equivariance',
+    'PbBss.C18.mask_axis_equivariance_squeezed',
+    'PbBss.C18.squeeze_spec',
+    'PbBss.C18.transpose_spec',
+    'PbBss.C18.zero_input_finite',
+    'PbBss.C18.zero_input_ibm',
 ]
 ASSUMPTIONS = [
     'complex128 inputs of moderate magnitude (no overflow of |s|^2); eps = 1e-18 unless stated',
@@ -301,8 +326,6 @@ def axis_move_equivariance(name, signal, kwargs, src, dst, contiguous):
             kw2['axis'] = order.index(mu.norm_axis(ax, nd))
     if 'quantile' in kwargs and isinstance(kwargs['quantile'], list):
         kw1['quantile'] = kw2['quantile'] = tuple(kwargs['quantile'])
-    if name == 'quantile_mask' and len(set(_norm_axes(kwargs['axis'], nd))) == nd:
-        return Skip('quantile_mask without an independent axis (see quantile_mask_levels:no-independent-axis)')
     has_keep = 'keepdims' in kwargs
     if has_keep:
         kw1['keepdims'] = kw2['keepdims'] = True
@@ -311,6 +334,10 @@ def axis_move_equivariance(name, signal, kwargs, src, dst, contiguous):
     except ValueError:
         if name == 'lorenz_mask':
             return Skip('a single point carries the Lorenz fraction (or no power)')
+        raise
+    except TypeError:
+        if name == 'quantile_mask' and len(set(_norm_axes(kwargs['axis'], nd))) == nd:
+            return Skip('quantile_mask raises without an independent axis (reported by quantile_mask_levels:no-independent-axis)')
         raise
     o2 = _call(name, x2.copy(), kw2)
     lead = o1.ndim - nd       # quantile tuple adds a leading axis
@@ -415,7 +442,7 @@ def gen_exact_lorenz(rng):
 
 def search(ctx):
     rng = ctx.rng
-    n = ctx.n(400, 8000)
+    n = ctx.n(800, 12000)
     for i in range(n):
         if ctx.out_of_time(reserve=30):
             break
@@ -500,6 +527,29 @@ def search(ctx):
         ctx.run(axis_move_equivariance, name='lorenz_mask', signal=xl,
                 kwargs={'sensor_axis': se_l, 'axis': axis_arg, 'lorenz_fraction': frac, 'weight': w, 'keepdims': True},
                 src=srcs, dst=dsts, contiguous=bool(rng.random() < 0.5))
+    # ---- exhaustive sweep of the axis arguments: every (ndim, source_axis, sensor_axis, keepdims, spelling)
+    for nd in range(1, 5):
+        size = int(rng.integers(2, 4))
+        for sa in range(nd):
+            for se in [None] + [a for a in range(nd) if a != sa]:
+                for keep in (False, True):
+                    if ctx.out_of_time(reserve=20):
+                        break
+                    neg = bool(rng.random() < 0.5)
+                    kind = str(rng.choice(['normal', 'gauss-int', 'dup-source']))
+                    x = mu.gen_tensor(rng, [size] * nd, kind, sa)
+                    sa_s = sa - nd if neg else sa
+                    se_s = None if se is None else (se - nd if not neg else se)
+                    ctx.count('search-exhaustive-axis-sweep')
+                    ctx.run(ibm_one_hot_at_first_maximum, signal=x, source_axis=sa_s, sensor_axis=se_s, keepdims=keep,
+                            exact=mu.exact_kind(kind))
+                    ctx.run(ratio_mask_range_and_sum, name='wiener_like_mask', signal=x, source_axis=sa_s,
+                            sensor_axis=se_s, keepdims=keep, eps=EPS)
+                    srcs = [sa] + ([se] if se is not None else [])
+                    for dsts in itertools.permutations(range(nd), len(srcs)):
+                        ctx.run(axis_move_equivariance, name=str(rng.choice(['ideal_binary_mask', 'wiener_like_mask'])),
+                                signal=x, kwargs={'source_axis': sa_s, 'sensor_axis': se_s, 'keepdims': True},
+                                src=srcs, dst=list(dsts), contiguous=bool(rng.random() < 0.5))
     # ---- all-zero inputs, every layout up to 4 axes
     for nd in range(1, 5):
         for sa in range(nd):
@@ -576,7 +626,7 @@ def corr(ctx):
         lines.append(line)
         metas.append(meta)
 
-    n = ctx.n(60, 1500)
+    n = ctx.n(150, 2500)
     for i in range(n):
         shape = mu.gen_shape(rng, big_last=True)
         nd = len(shape)
